@@ -51,7 +51,7 @@ def enc_list(l):
 
 def rand_cfg(rng):
     o = lambda vals: rng.choice(vals)
-    return ",".join([o(["N", "N", "0", "1", "2"]), o(["N", "0", "1", "1"]), o(["N", "0", "1"]), o(["N", "N", "2", "4", "0"]),
+    return ",".join([o(["N", "N", "0", "1", "2"]), o(["N", "0", "1", "1"]), o(["N", "0", "1"]), o(["N", "N", "2", "4", "0", "8", "1"]),
                      o("TF"), o("TFF"), o("TF")])
 
 
@@ -92,10 +92,17 @@ def streams(rng, tier):
         lp = [p for p in ps if p == p.lower()]
         if lp:
             out.append(Case("law-shape", "law.t.shape", [v, enc_list(la), enc_list(lp), interp.lower()], kind="law"))
+    # repeated abi3 / none entries (list.remove drops only the first occurrence)
+    for _ in range(200 if q else 5000):
+        v = rand_pv(rng)
+        abis = [rng.choice(["abi3", "none", "abi3", "none", "cp" + "".join(v.split(".")[:2]), "cp%st" % "".join(v.split(".")[:2])]) for _ in range(rng.choice([2, 3, 4]))]
+        ps = rand_list(rng, PLATS, [1, 2])
+        out.append(Case("cpython-repeats", "t.cpython", [v, enc_list(abis), enc_list(ps), rand_cfg(rng)]))
+        out.append(Case("generic-repeats", "t.generic", ["pp310", enc_list(abis), enc_list(ps)]))
     # default ABI: every config combination on boundary versions (bounded-exhaustive in the quick tier over a reduced value set)
     vals3 = ["N", "0", "1"]
     bvers = ["2.7", "3.2", "3.3", "3.7", "3.8", "3.12", "3.13", "3.14", "3", "4.0", "3.2.5", "3.13.1", "3.7.9", "2.7.18"]
-    combos = [(d, g, p, u, r, e, w) for d in vals3 for g in vals3 for p in vals3 for u in ["N", "2", "4"] for r in "TF" for e in "TF" for w in "TF"]
+    combos = [(d, g, p, u, r, e, w) for d in vals3 for g in vals3 for p in vals3 for u in ["N", "2", "4", "8"] for r in "TF" for e in "TF" for w in "TF"]
     if q: combos = rng.sample(combos, 160)
     for c in combos:
         for v in (bvers if not q else rng.sample(bvers, 5)):
